@@ -60,7 +60,7 @@ def spec_hash():
         if "/t" in d.replace(SPEC, "") and d.endswith("/t"):
             continue
         for n in names:
-            if n.endswith((".tla", ".cfg", ".java")):
+            if n.endswith((".tla", ".cfg", ".java")) and "_TTrace_" not in n:
                 fs.append(os.path.join(d, n))
     return file_hash(fs)
 
@@ -111,7 +111,7 @@ def build():
 def tlc_cmd(module_dir, module, cfg, meta, lib, extra=(), big=False, env_extra=None):
     cp = JAR + ":" + CM + (":" + os.path.join(SPEC, "lib/big") if big else "")
     cmd = ["java", "-XX:+UseParallelGC", "-Xss64m", "-Xmx6g", "-DTLA-Library=%s:%s" % (lib, SPEC), "-cp", cp, "tlc2.TLC",
-           "-nowarning", "-metadir", meta, "-config", cfg] + list(extra) + [module + ".tla"]
+           "-nowarning", "-noGenerateSpecTE", "-metadir", meta, "-config", cfg] + list(extra) + [module + ".tla"]
     return cmd
 
 
